@@ -7,7 +7,7 @@ V="$(cd "$(dirname "$0")/.." && pwd)"
 d=$1; shift
 props="$@"; [ -z "$props" ] && props="C01 C02 C03 C04 C05 C06 C07 C08 C09 C10 C11 C12 C13 C14 C15 C16 C17"
 mkdir -p "$d"
-FOCUS="none prescribed - choose whatever you judge most likely to slip through a careful, systematic test campaign (one that already varies option subsets and boundary values, read/write chunking, big packets and bursts, acknowledgement orders, cancellation points, several connections per Context ended in every way, resumed and expired sessions, requests made before connect(), futures created long before their first poll, several handle clones and long-lived handles, the client's own CONNECT limits, CONNACK property sets, transport faults of several kinds incl. transient ones, spurious polls with fresh wakers, long backlogs, unusual message contents (retain, every property, topic aliases, long topics, multi-byte strings at every byte alignment), write halves that gather vectored writes and fail or stall in flush / close, re-authentication after the CONNACK, sessions resumed twice, one handle object used for many operations, identifier wrap-around with identifier-free traffic in between, packet sizes and cuts at powers of two up to several MiB, MQTT 5 features a client may act on (Retain Handling and Retain Available, Request Problem Information, Message Expiry, Payload Format Indicator, Maximum QoS, wildcard / shared subscription availability, server redirects, re-authentication), QoS 2 identifiers released out of order and reused, inbound and outbound identifiers with equal values, requests made between two connections, bursts of many thousands of packets, hundreds of handshakes re-sent at a resume, real time passing (seconds) at every place where the crate could look at a clock, Display / Debug of every returned value). Good candidates: interactions of THREE things that are each fine alone or in pairs; behaviour that depends on the VALUE of data in an unusual way; rarely used API surface; code paths reached only through a particular sequence of errors; anything where the library keeps a copy of something and the copy can go stale; state that survives from one phase (connect / authorize / run / a second run) into the next"
+FOCUS="none prescribed - choose whatever you judge most likely to slip through a careful, systematic test campaign (one that already varies option subsets and boundary values, read/write chunking, big packets and bursts, acknowledgement orders, cancellation points, several connections per Context ended in every way, resumed and expired sessions, requests made before connect(), futures created long before their first poll, several handle clones and long-lived handles, the client's own CONNECT limits, CONNACK property sets, transport faults of several kinds incl. transient ones, spurious polls with fresh wakers, long backlogs, unusual message contents (retain, every property, topic aliases, long topics, multi-byte strings at every byte alignment), write halves that gather vectored writes and fail or stall in flush / close, re-authentication after the CONNACK, sessions resumed twice, one handle object used for many operations, identifier wrap-around with identifier-free traffic in between, packet sizes and cuts at powers of two up to several MiB, MQTT 5 features a client may act on (Retain Handling and Retain Available, Request Problem Information, Message Expiry, Payload Format Indicator, Maximum QoS, wildcard / shared subscription availability, server redirects, re-authentication), QoS 2 identifiers released out of order and reused, inbound and outbound identifiers with equal values, requests made between two connections, bursts of many thousands of packets, hundreds of handshakes re-sent at a resume, real time passing (seconds) at every place where the crate could look at a clock, Display / Debug of every returned value, sliding windows of outstanding operations over dozens of rounds, strings with blanks / line ends / control characters, repeated identical properties, 70 000 unread messages per stream, 65 600 operations after the context is gone, single outbound packets of up to 256 MiB). Good candidates: interactions of THREE things that are each fine alone or in pairs; behaviour that depends on the VALUE of data in an unusual way; rarely used API surface; code paths reached only through a particular sequence of errors; anything where the library keeps a copy of something and the copy can go stale; state that survives from one phase (connect / authorize / run / a second run) into the next"
 for p in $props; do
   git -C /repo worktree add -q --detach "$d/$p" HEAD || exit 2
   avoid=$(python3 - "$p" <<'PY'
